@@ -160,6 +160,9 @@ class WireLaws (F : Type) [FloatOps F] : Prop where
   le_notNaN : ∀ x y : F, le x y = true → isNaN x = false ∧ isNaN y = false
   le_trans : ∀ x y z : F, le x y = true → le y z = true → le x z = true
   feq_refl : ∀ x : F, isNaN x = false → feq x x = true
+  le_refl : ∀ x : F, isNaN x = false → le x x = true
+  /-- `-sys.float_info.max <= sys.float_info.max` -/
+  negMax_le_max : le (neg maxFinite : F) maxFinite = true
   /-- `x + 0.0` is `x` for every comparison (`-0.0 + 0.0 == -0.0`) -/
   isNaN_addZero : ∀ x : F, isNaN (addZero x) = isNaN x
   le_addZero_left : ∀ x y : F, le (addZero x) y = le x y
@@ -199,10 +202,11 @@ structure TextLib.Lawful (lib : TextLib F) : Prop where
   fmtDouble : ∀ (pos : List Nat) (x : F), FiniteNum x → same (addZero x) x = true →
     ∃ w y, lib.evalAtom (lib.fmtFloat pos x) = some w ∧ doubleCall w = .ok y ∧
       lib.fmtFloat pos y = lib.fmtFloat pos x
-  /-- … and through `ScaledInteger.__call__` for a value the grid reproduces -/
+  /-- … and through `ScaledInteger.__call__` for a value the grid reproduces; the grid value the text is read as is
+  again one the grid reproduces (`round(y / scale) * scale == y`: the grid law at the re-read value) -/
   fmtScaled : ∀ (pos : List Nat) (scale x : F), SnapFix scale x → same (addZero x) x = true →
     ∃ w y, lib.evalAtom (lib.fmtFloat pos x) = some w ∧ scaledCall scale w = .ok y ∧
-      lib.fmtFloat pos y = lib.fmtFloat pos x
+      lib.fmtFloat pos y = lib.fmtFloat pos x ∧ SnapFix scale y
 
 mutual
 /-- `str.strip` leaves every enum member name of the tree alone (no leading/trailing white space) -/
